@@ -101,7 +101,7 @@ class ExitInformation(object):
 
 class Controller(object):
     def __init__(self, objfun, argsf, x0, r0, r0_nsamples, xl, xu, projections, npt, rhobeg, rhoend, nf, nx, maxfun, params,
-                 scaling_changes, do_logging, h=None, lh=None, argsh = (), prox_uh=None, argsprox = ()):
+                 scaling_changes, do_logging, h=None, lh=None, argsh = (), prox_uh=None, argsprox = (), x0_eval_num=1):
         self.do_logging = do_logging
         self.objfun = objfun
         self.h = h
@@ -112,7 +112,8 @@ class Controller(object):
         self.argsprox = argsprox
         self.maxfun = maxfun
         self.model = Model(npt, x0, r0, xl, xu, projections, r0_nsamples, h=self.h, argsh = argsh, precondition=params("interpolation.precondition"),
-                           abs_tol = params("model.abs_tol"), rel_tol = params("model.rel_tol"), do_logging=do_logging, scaling_changes=scaling_changes)
+                           abs_tol = params("model.abs_tol"), rel_tol = params("model.rel_tol"), do_logging=do_logging, scaling_changes=scaling_changes,
+                           x0_eval_num=x0_eval_num)
         self.nf = nf
         self.nx = nx
         self.rhobeg = rhobeg
